@@ -163,6 +163,8 @@ def replay(pyhf, backend, precision, chunk, seed, ainv=None):
         if cfg.npars >= 2:
             masks.append([0])
             masks.append([cfg.npars - 1])
+        if cfg.npars >= 3:
+            masks.append([cfg.npars - 1, 0])      # two fixed parameters, listed in DESCENDING index order (shim takes the caller's list as given)
         for lane, pars, exact, theta_json in lanes:
           exp_full = [None] * cfg.npars
           for n_abs, comps in exact.items():
